@@ -280,6 +280,14 @@ def rule_c(ctx, cr):
         guards = [c.name.rsplit("::", 1)[-1] for c in ex.calls()
                   if c.name == "mach::stack::Stack<T>::is_full"]
         ok2 = ok2 and bool(guards)
+    cmpops = sorted({st["rv"]["op"] for b, i, st in ex.assigns()
+                     if st["rv"]["k"] == "binop" and ex.describe(st["rv"]["l"]).endswith(".pc")
+                     and ex.describe(st["rv"]["r"]).endswith(".entry_address")})
+    ctx.check(cmpops == ["Ge"], "C13.c", "execute/error-arm-direct-mode-test", ex.span,
+              "`pc >= entry_address` decides that the failing statement was a direct one",
+              "execute() compares pc with entry_address by %s (expected >=): an error raised by "
+              "the first instruction of a direct line is taken for a program error (stack and "
+              "continuation kept), or a program error at the boundary for a direct one" % cmpops)
     ctx.check(ok2, "C13.c", "execute/error-arm-clear-is-conditional", ex.span,
               "an error inside the program keeps the stack unless it is full",
               "the error arm clears the value stack on every path: CONT after STOP/END/error "
